@@ -2,6 +2,7 @@ package vfs
 
 import (
 	"fmt"
+	"strings"
 
 	"verif/mc"
 )
@@ -542,19 +543,44 @@ var seqCfgs = []*seqCfg{
 	},
 }
 
+// leakDepth gives the depths of the C14 variants of the configurations: the
+// same alphabets, but only the lock probe after every call matters there (no
+// final read oracle), so they are explored less deeply in the quick tier.
+var leakDepth = map[string]map[string]int{
+	"seq-rename":   {"quick": 3, "thorough": 5},
+	"seq-bulk":     {"quick": 3, "thorough": 5},
+	"seq-readdir":  {"quick": 3, "thorough": 5},
+	"seq-casefold": {"quick": 3, "thorough": 5},
+	"seq-hidden":   {"quick": 3, "thorough": 5},
+	"seq-lazy":     {"quick": 4, "thorough": 6},
+	"seq-errors":   {"quick": 2, "thorough": 4},
+}
+
 func buildSeqs() []*mc.Seq {
 	var r []*mc.Seq
 	for _, cfg := range seqCfgs {
 		cfg := cfg
 		r = append(r, &mc.Seq{
 			Name:   cfg.name,
-			Props:  []string{"C13", "C14"},
+			Props:  []string{"C13"},
 			New:    func(c *mc.SeqCtx) any { return newSt(c, cfg) },
 			Ops:    cfg.ops(cfg),
 			Key:    func(x any) string { return x.(*st).key() },
 			Final:  func(c *mc.SeqCtx, x any) { x.(*st).final(c) },
 			Depth:  cfg.depth,
-			Panics: []string{"C13", "C14"},
+			Panics: []string{"C13"},
+		})
+	}
+	for _, cfg := range seqCfgs {
+		cfg := cfg
+		r = append(r, &mc.Seq{
+			Name:   "leak-" + strings.TrimPrefix(cfg.name, "seq-"),
+			Props:  []string{"C14"},
+			New:    func(c *mc.SeqCtx) any { return newSt(c, cfg) },
+			Ops:    cfg.ops(cfg),
+			Key:    func(x any) string { return x.(*st).key() },
+			Depth:  leakDepth[cfg.name],
+			Panics: []string{"C14"},
 		})
 	}
 	return r
